@@ -771,6 +771,14 @@ def sym_power(b, e):
 
 def fun_atom(fname, arg):
     arg = P(arg)
+    if fname == "Abs":
+        # |c| for a constant: rational, or a single algebraic term (coefficient times roots of positive constants)
+        if not arg.t:
+            return ZERO
+        if len(arg.t) == 1:
+            (m, c), = arg.t.items()
+            if all(g < 0 for g, _ in m):
+                return arg if c > 0 else -arg
     if fname == "Log":
         if arg.is_const():
             v = arg.const_value()
@@ -1389,3 +1397,114 @@ def fmt(p, maxterms=12):
 
 def nterms(p):
     return len(P(p).t)
+
+
+NUMERIC = {}  # gid of a symbol that stands for a known real constant (e.g. tan of half a constant angle) -> function(decimal context) -> Decimal
+
+
+def decimal_pi(ctx):
+    import decimal
+
+    D = decimal.Decimal
+    # Machin: pi = 16 atan(1/5) - 4 atan(1/239)
+    def atan_inv(n):
+        x = ctx.divide(D(1), D(n))
+        x2 = ctx.multiply(x, x)
+        term, tot, k = x, x, 1
+        while True:
+            term = ctx.multiply(term, x2)
+            k += 2
+            t = ctx.divide(term, D(k))
+            tot = ctx.subtract(tot, t) if (k // 2) % 2 else ctx.add(tot, t)
+            if abs(t) < D(10) ** -(ctx.prec + 5):
+                return tot
+    return ctx.subtract(ctx.multiply(D(16), atan_inv(5)), ctx.multiply(D(4), atan_inv(239)))
+
+
+def decimal_sincos(x, ctx):
+    import decimal
+
+    D = decimal.Decimal
+    s, c, term, k = D(0), D(0), D(1), 0
+    while abs(term) > D(10) ** -(ctx.prec + 5) or k < 4:
+        if k % 2 == 0:
+            c = ctx.add(c, term) if (k // 2) % 2 == 0 else ctx.subtract(c, term)
+        else:
+            s = ctx.add(s, term) if (k // 2) % 2 == 0 else ctx.subtract(s, term)
+        k += 1
+        term = ctx.divide(ctx.multiply(term, x), D(k))
+    return s, c
+
+
+def const_decimal(p, prec=80):
+    """value of a *constant* ring element (no symbols; roots of constants, pow / Abs / Exp / Log / Sqrt atoms of constants allowed) as a
+    Decimal with `prec` significant digits; Undecided for anything else.  Used only to *separate* two constants (a difference that is
+    far from zero at 80 digits is not zero)."""
+    import decimal
+
+    ctx = decimal.Context(prec=prec)
+    D = decimal.Decimal
+
+    def dfr(q):
+        q = _fr(q)
+        return ctx.divide(D(q.numerator), D(q.denominator))
+
+    def dpow(b, e):
+        e = _fr(e)
+        if e.denominator == 1:
+            return ctx.power(b, D(e.numerator))
+        if b < 0:
+            if e.denominator % 2 == 1:
+                r = ctx.power(-b, dfr(e))
+                return -r if e.numerator % 2 else r
+            raise Undecided("fractional power of a negative constant")
+        if b == 0:
+            if e > 0:
+                return D(0)
+            raise Undecided("zero to a negative power")
+        return ctx.power(b, dfr(e))
+
+    cache = {}
+
+    def gen(g):
+        if g in cache:
+            return cache[g]
+        if g < 0:
+            v = D(-g)
+        else:
+            inf = G.info[g]
+            k = inf["kind"]
+            if k == "pow":
+                v = val(inf["arg"])
+            elif k == "fun":
+                a = val(inf["arg"])
+                fn = inf["fname"]
+                if fn == "Abs":
+                    v = abs(a)
+                elif fn == "Exp":
+                    v = ctx.exp(a)
+                elif fn == "Log":
+                    if a <= 0:
+                        raise Undecided("log of a non-positive constant")
+                    v = ctx.ln(a)
+                elif fn == "Sqrt":
+                    v = ctx.sqrt(a)
+                else:
+                    raise Undecided("no decimal evaluation of %s" % fn)
+            elif k == "sym" and g in NUMERIC:
+                v = NUMERIC[g](ctx)
+            else:
+                raise Undecided("no decimal evaluation of a %s atom" % k)
+        cache[g] = v
+        return v
+
+    def val(q):
+        tot = D(0)
+        for m, c in P(q).t.items():
+            t = dfr(c)
+            for g, e in m:
+                t = ctx.multiply(t, dpow(gen(g), e))
+            tot = ctx.add(tot, t)
+        return tot
+
+    return val(p)
